@@ -99,7 +99,8 @@ theorem rank_without_order (p : List Nat) :
   rw [rank_spec _ p (peers_without_order p)]
   apply perRow_congr
   intro a x b _
-  simp [rankSpec, rowNumberSpec]; omega
+  have : (a.filter fun j => !false) = a := List.filter_eq_self.mpr (by simp)
+  simp only [rankSpec, rowNumberSpec, List.nil_append, this]; omega
 
 /-- a partition sorted by a key whose equality is the ORDER BY equivalence satisfies the hypotheses
     (so they are satisfiable by every sorted partition, whatever its length) -/
@@ -128,7 +129,8 @@ theorem ntile_spec (n : Int) (hn : 1 ≤ n) (p : List Nat) :
           tileStart (ntileParams p.length n.toNat).1 (ntileParams p.length n.toNat).2 b ≤ j ∧
           j < tileStart (ntileParams p.length n.toNat).1 (ntileParams p.length n.toNat).2 (b + 1) := by
   have hn' : ¬ n < 1 := by omega
-  refine ⟨_, by simp only [ntile, hn', if_false], ntileLoop_map_fst _ p 1 0 _, ?_⟩
+  refine ⟨ntileLoop (ntileParams p.length n.toNat).1 p 1 0 (ntileParams p.length n.toNat).2,
+    by simp only [ntile, hn', if_false], ntileLoop_map_fst _ p 1 0 _, ?_⟩
   intro j e he
   have hq := ntileParams_pos p.length n.toNat
   have hinv : NtileInv (ntileParams p.length n.toNat).1 (ntileParams p.length n.toNat).2 0 1 0
@@ -254,9 +256,8 @@ theorem last_value_default_frame_counterexample :
     otherwise the LAST VISITED cell of the frame (counted or not) instead of NULL -/
 theorem nth_value_code (cells : Nat → Val) (ign : Bool) (n : Int) (hn : 1 ≤ n) (w : Window) (p : List Nat) :
     nthValue cells ign n w p = some (perRow (fun pre x post =>
-      match (keptCells cells ign (frameRows w pre x post))[n.toNat - 1]? with
-      | some v => v
-      | none => (((frameRows w pre x post).map cells).getLast?).getD .null) [] p) := by
+      ((keptCells cells ign (frameRows w pre x post))[n.toNat - 1]?).getD
+        ((((frameRows w pre x post).map cells).getLast?).getD .null)) [] p) := by
   have hn' : ¬ n < 1 := by omega
   simp only [nthValue, hn', if_false, setNthValue]
   rw [frames_spec (fun _ rows => scanNth cells ign n.toNat rows .null 0) w p]
@@ -457,7 +458,7 @@ theorem analyze_row_spec (f : List Nat → Nat → List Nat → β) (exec : List
     -- restrict `exec` to sorted partitions
     let exec' : List Nat → List (Nat × β) := fun p => if p.Pairwise (· < ·) then exec p else p.map fun j => (j, f [] j [])
     have hsame : (partitionsOf keys).flatMap (fun part => exec part.2) = (partitionsOf keys).flatMap (fun part => exec' part.2) := by
-      apply List.flatMap_congr
+      apply flatMap_congr'
       intro part hp
       have := partition_in_view_order keys part hp
       simp [exec', this]
@@ -494,7 +495,7 @@ theorem analyze_row_spec (f : List Nat → Nat → List Nat → β) (exec : List
     exact assoc_of_mem i _ _ (by rw [perRow_map_fst]; exact hnd) hmem
   · rw [h hsorted]
     apply assoc_of_mem i _ _
-    · rw [List.map_reverse, perRow_map_fst]; exact List.nodup_reverse.mpr hnd
+    · rw [List.map_reverse, perRow_map_fst]; exact nodup_reverse' _ hnd
     · exact List.mem_reverse.mpr hmem
 
 /-- the result does not depend on how the partitions are distributed over worker goroutines -/
@@ -526,7 +527,6 @@ theorem other_columns_unchanged {γ : Type} (rows : List (List γ)) (col : List 
   refine ⟨col[i], List.getElem?_eq_getElem hc, ?_⟩
   unfold appendColumn
   rw [List.getElem?_zipWith, hr, List.getElem?_eq_getElem hc]
-  rfl
 
 /-! ## non-vacuity -/
 
